@@ -44,6 +44,8 @@ def gen_rule(rng, genes):
 
 def gen_bounds(rng, sbml_safe=False):
     k = rng.random()
+    if k < 0.05:
+        return "-inf", "inf"                                             # unbounded both ways
     if k < 0.25:
         return "0", rng.choice(["1000", "10", "inf", "7/2"])
     if k < 0.5:
@@ -114,7 +116,13 @@ def gen_rich_spec(rng, sbml=False):
                 o["notes"] = rng.choice([{"k": "v: w"}, {"x": "a<b & c"}, {"k": 'q "x"'}, {"two words": "1 < 2"}])
             if rng.random() < 0.15:
                 o["annotation"] = rng.choice([{"kegg.reaction": ["R00001"]}, {"my_db": "X1"}, {"inchi_key": "WQZGKKKJIJFFOK-GASJEMHNSA-N"},
-                                              {"bigg.metabolite": "glc__D", "sbo": "SBO:0000247"}])
+                                              {"bigg.metabolite": "glc__D", "sbo": "SBO:0000247"},
+                                              # identifiers of one provider that contain one another, in either order
+                                              {"ec-code": ["1.1.1.10", "1.1.1.1"]}, {"kegg.compound": ["C00031", "C000312", "C0003"]},
+                                              {"bigg.metabolite": ["glc", "glc__D"], "chebi": ["CHEBI:4167", "CHEBI:41"]}])
+        for g in genes:
+            if rng.random() < 0.15:
+                g["annotation"] = rng.choice([{"ncbigene": ["12345", "123"]}, {"uniprot": ["P0A9B2", "P0A9B"], "ncbigene": "945"}])
         for r in rxns:
             if rng.random() < 0.15:
                 k = rng.choice(list(r["st"]))
